@@ -82,10 +82,14 @@ void vp_task_set_part(d1::task* t, const u64* o) {
 }
 // A non-root task in an arbitrary state: built with the real root constructor in harness memory, then range/partition fields
 // are overwritten by the harness (vp_task_set_part); its parent is a real tree_node (ref count rc, stolen flag) under a real wait_node.
-static unsigned char ctx_mem[sizeof(task_group_context)] __attribute__((aligned(128)));
-static unsigned char wn_mem[sizeof(d1::wait_node)] __attribute__((aligned(64)));
+// typed static storage (a byte array accessed through a struct pointer costs cbmc a byte-level encoding of every access)
+static union ctx_store { task_group_context v; ctx_store() {} ~ctx_store() {} } ctx_u;
+static union wn_store { d1::wait_node v; wn_store() {} ~wn_store() {} } wn_u;
+#define ctx_mem ((void*)&ctx_u.v)
+#define wn_mem ((void*)&wn_u.v)
 #if VP_PART == 3
-static unsigned char ap_mem[sizeof(affinity_partitioner)] __attribute__((aligned(64)));
+static union ap_store { affinity_partitioner v; ap_store() {} ~ap_store() {} } ap_u;
+#define ap_mem ((void*)&ap_u.v)
 #endif
 task_group_context* vp_ctx() { return (task_group_context*)ctx_mem; }
 void vp_ctx_init() { new (ctx_mem) task_group_context(task_group_context::bound, task_group_context::default_traits); }
